@@ -91,6 +91,11 @@ def expectations(main, samples):
     for s in ('metaschema', 'performance', 'race'):
         for v in VALIDATORS:
             if 'json/%s.json' % s in M: ex.append((('sv', 'json/%s.json' % s, v), 'valid'))
+    # the schemas under definitions/ (reached through $ref by the main ones), checked as schemas in their own right under
+    # draft 4 — a specification-side list of the bundle's state (vertical_jump_performance is itself not a valid schema)
+    for s, verdict in (('field_performance', 'valid'), ('horizontal_jump_performance', 'valid'), ('jump_performance', 'valid'),
+                       ('throw_performance', 'valid'), ('track_performance', 'valid'), ('vertical_jump_performance', 'invalid')):
+        ex.append((('sv', 'json/definitions/%s.json' % s, 'Draft4Validator'), verdict))
     for s in ('athlete', 'combined_performance', 'competition', 'event'):
         if 'json/%s.json' % s in M:
             ex.append((('sv', 'json/%s.json' % s, 'Draft3Validator'), 'invalid'))
